@@ -25,6 +25,8 @@ for d in /verif/seeded/C*/ /verif/seeded/own-*/; do
   ids="C01 C02 C03 C04 C05 C06 C07 C08 C09 C10 C11 C12 C13 C14 C15 C16 C17 C18 C19 C20"
   # ONLY_OWN=1: the diagonal only (the check of the property the seed was written against)
   if [ -n "$ONLY_OWN" ]; then ids=$(echo $sid | sed 's/^own-//' | cut -c1-3); fi
+  # ONLY_CHECKS="C02 C07": those columns only
+  if [ -n "$ONLY_CHECKS" ]; then ids="$ONLY_CHECKS"; fi
   # seeds that are visible only with debug assertions compiled out (meta.json has a profile_note): the second pass of
   # run.sh is reproduced here for the checks that have one
   nd=""
